@@ -24,6 +24,7 @@ MR : decided here over all replayed behaviours: equal committed batch sequence =
 import concurrent.futures
 import json
 import os
+import time
 
 from lib import *
 
@@ -85,6 +86,7 @@ NEED_KINDS = ["dispatch/accepted", "dispatch/duplicate", "dispatch/INVALID_INTEN
 
 def run_leg(ck, binp, tier, replay=None):
     spec_mutants = {}
+    t_leg = time.time()
     only = os.environ.get("VERIF_KPORT_ONLY")                # debugging aid: run a single cfg of the tier
 
     def mc(cfg):
@@ -255,6 +257,7 @@ def run_leg(ck, binp, tier, replay=None):
     ck.cov["rule"] += ("; kernel-port leg: %d cases (graph cfgs: one per transition of the MC_KernelPort state graph replayed from a witness path; beh cfgs: one per "
                        "complete behaviour; every call checked), cfgs %s; non-trivial = the behaviour contains a retry answered duplicate, >= 2 commits, an engine "
                        "error or a panic" % (total, RUNS.get(tier, [])))
+    log(f"[kport] kernel-port leg: {total} cases / {calls} calls replayed, {time.time() - t_leg:.1f}s")
     ck.cov["kernel"] = {"behaviours": total, "calls": calls, "real_stats": stats, "cycles": stats.get("cycles", 0),
                         "committing_cycles": stats.get("commits", 0), "duplicates": stats.get("duplicates", 0),
                         "refused_controls_and_dispatches": stats.get("refused", 0), "distinct_statuses": len(statuses),
